@@ -1188,6 +1188,12 @@ pub fn encode_file(m: &MetaSpec, dataset: &[u8], preamble: bool) -> Vec<u8> {
 /// Parse a file: returns (meta elements, offset of the data set). The meta
 /// group length must equal the bytes that follow it.
 pub fn parse_file_meta(bytes: &[u8]) -> Result<(Vec<PElem>, usize), String> {
+    parse_file_meta_opts(bytes, true)
+}
+
+/// `check_next`: also require that what follows the group is not another
+/// group-0002 element (meaningless when the data set is deflated).
+pub fn parse_file_meta_opts(bytes: &[u8], check_next: bool) -> Result<(Vec<PElem>, usize), String> {
     let mut pos;
     if bytes.len() >= 132 && &bytes[128..132] == b"DICM" {
         pos = 132;
@@ -1216,7 +1222,7 @@ pub fn parse_file_meta(bytes: &[u8]) -> Result<(Vec<PElem>, usize), String> {
         }
     }
     // the next element must not be in group 2
-    if bytes.len() >= pos + glen + 2 && bytes[pos + glen] == 2 && bytes[pos + glen + 1] == 0 {
+    if check_next && bytes.len() >= pos + glen + 2 && bytes[pos + glen] == 2 && bytes[pos + glen + 1] == 0 {
         return Err(format!("group length {} stops before the end of group 0002", glen));
     }
     Ok((meta, pos + glen))
